@@ -379,16 +379,23 @@ def d2_12(ctx):
         ctx.check(flat == ["t0", "t1", "t2", "t3"] and all(0 < len(g) <= 2 for g in groups), key, fn, "four 200-byte requests on a 500-byte connection: every request sent once, in order, at most two per packet",
                   f"grouping of four 200-byte requests on a 500-byte connection gives {groups!r}")
 
-    for label, sizes_, want_groups in (("five 245-byte requests on a 500-byte connection", [245] * 5, [[0, 1], [2, 3], [4]]), ("requests of 100, 395 and 100 bytes", [100, 395, 100], [[0], [1], [2]]),
-                                       ("requests of 245, 245, 5 bytes", [245, 245, 5], [[0, 1], [2]])):
+    # How the requests are shared out between packets is the builder's business (it may pack them better one day); what is decided is
+    # that every request is sent exactly once and that every packet fits by the wire layout: sequence 2 + service 1 + path size 1 +
+    # path 4 + count 2, and per member an offset (2) and its message without the sequence count.  Request sizes are swept over the
+    # range in which one, two or three of them fill a 500-byte packet.
+    for label, sizes_ in [(f"four {m}-byte requests", [m] * 4) for m in range(118, 262, 3)] + [("requests of 100, 395 and 100 bytes", [100, 395, 100]), ("requests of 245, 245, 5 bytes", [245, 245, 5]), ("requests of 480, 5, 5 bytes", [480, 5, 5])]:
         parsed = {i: _wparsed(i, f"t{i}", value=i) for i in range(len(sizes_))}
         kind, res = run_function(ctx, lx.module, fn, {"self": _driver(connection_size=500), fn.args.args[1].arg: parsed}, call_hook=chain(enc, packet_markers([], sizes={f"t{i}": n for i, n in enumerate(sizes_)})), deep=False)
         key = ckey(lx.key + "._write_build_multi_requests", f"witness:grouping:{label}")
         if kind == "unknown":
             ctx.undecided(key, fn, f"_write_build_multi_requests not foldable on {label}: {res}")
             continue
-        groups = [[r.request_id for r in m.requests] for m in res] if kind == "return" and all(isinstance(m, Obj) and m.__dict__.get("kind") == "Multi" for m in res) else res
-        ctx.check(groups == want_groups, key, fn, f"{label}: packets {want_groups} (each packet: overhead + its requests <= connection size)", f"{label}: grouped as {groups!r}; expected {want_groups!r}")
+        ok_shape = kind == "return" and isinstance(res, list) and all(isinstance(m, Obj) and m.__dict__.get("kind") in ("Multi", "WTF") for m in res)
+        groups = [[r.request_id for r in m.requests] if m.kind == "Multi" else ("fragmented", m.request_id) for m in res] if ok_shape else res
+        sent = sorted([x for g in groups if isinstance(g, list) for x in g] + [g[1] for g in groups if isinstance(g, tuple)]) if ok_shape else None
+        over = [(g, 10 + sum(sizes_[x] for x in g)) for g in groups if isinstance(g, list) and (not g or 10 + sum(sizes_[x] for x in g) > 500)] if ok_shape else []
+        ctx.check(ok_shape and sent == list(range(len(sizes_))) and not over, key, fn, f"{label}: {groups!r} - every request once, every packet within 500 bytes",
+                  f"{label}: sent as {groups!r}; " + (f"packet {over[0][0]} is {over[0][1]} bytes on a 500-byte connection (or empty)" if over else "not every request is sent exactly once"))
     # --- dispatch
     fn = lx.methods["_write_build_requests"]
     for label, micro, n, want in (("one request", False, 1, "single"), ("several requests", False, 3, "multi"), ("several requests on a Micro800", True, 3, "single"), ("one request on a Micro800", True, 1, "single")):
@@ -442,18 +449,26 @@ def d1_15(ctx):
         flat = [t for g in groups for t in g] if isinstance(groups, list) and all(isinstance(g, list) for g in groups) else None
         ctx.check(flat == [f"t{i}" for i in range(5)] and all(0 < len(g) <= 2 for g in groups), key, fn, "five requests with ~170-byte estimated replies on a 500-byte connection: each requested once, in order, at most two per packet",
                   f"grouping of five requests with ~170-byte replies on a 500-byte connection gives {groups!r}")
-    for label, sizes_, want_groups in (("five requests with 245-byte estimated replies", [223] * 5, [[0, 1], [2, 3], [4]]), ("estimated replies of 100, 395 and 100 bytes", [78, 373, 78], [[0], [1], [2]]),
-                                       ("estimated replies of 239, 239, 239, 239, 22 bytes", [217, 217, 217, 217, 0], [[0, 1], [2, 3], [4]])):
+    # How the requests are shared out between packets is the builder's business; decided is that every request is sent exactly once and
+    # that the reply a packet solicits fits by the wire layout: sequence 2 + reply header 4 + count 2, and per member an offset (2), a
+    # reply header (4), the type (2, or 4 for a structure: the worse case is taken) and the data.  Data sizes are swept over the range in
+    # which one, two or three replies fill a 500-byte packet; request messages are the shortest possible (10 bytes).
+    for label, sizes_ in [(f"five reads of {d} data bytes", [d] * 5) for d in range(140, 250, 3)] + [(f"five reads of {d} data bytes", [d] * 5) for d in (236, 237, 238, 239)] \
+            + [("reads of 78, 373 and 78 data bytes", [78, 373, 78]), ("reads of 217, 217, 217, 217, 0 data bytes", [217, 217, 217, 217, 0]), ("reads of 470, 4, 4 data bytes", [470, 4, 4])]:
         parsed = {i: _parsed(i, f"t{i}") for i in range(len(sizes_))}
         szh = lambda call, env, it, sizes_=sizes_: sizes_[it.ev(call.args[0], env)["request_id"]] if (call_name(call) or "") == "_tag_return_size" else UNKNOWN  # noqa: E731
         fnm_ = lx.methods["_read_build_multi_requests"]
-        kind, res = run_function(ctx, lx.module, fnm_, {"self": _driver(connection_size=500), fnm_.args.args[1].arg: parsed}, call_hook=chain(szh, packet_markers([])), deep=False)
+        kind, res = run_function(ctx, lx.module, fnm_, {"self": _driver(connection_size=500), fnm_.args.args[1].arg: parsed}, call_hook=chain(szh, packet_markers([], sizes={f"t{i}": 10 for i in range(len(sizes_))})), deep=False)
         key = ckey(lx.key + "._read_build_multi_requests", f"witness:grouping:{label}")
         if kind == "unknown":
             ctx.undecided(key, fnm_, f"_read_build_multi_requests not foldable on {label}: {res}")
             continue
-        groups = [[r.request_id for r in m.requests] for m in res] if kind == "return" and all(isinstance(m, Obj) and m.__dict__.get("kind") == "Multi" for m in res) else res
-        ctx.check(groups == want_groups, key, fnm_, f"{label}: packets {want_groups} (overhead + estimated replies <= connection size)", f"{label}: grouped as {groups!r}; expected {want_groups!r}")
+        ok_shape = kind == "return" and isinstance(res, list) and all(isinstance(m, Obj) and m.__dict__.get("kind") in ("Multi", "RTF") for m in res)
+        groups = [[r.request_id for r in m.requests] if m.kind == "Multi" else ("fragmented", m.request_id) for m in res] if ok_shape else res
+        sent = sorted([x for g in groups if isinstance(g, list) for x in g] + [g[1] for g in groups if isinstance(g, tuple)]) if ok_shape else None
+        over = [(g, 8 + sum(10 + sizes_[x] for x in g)) for g in groups if isinstance(g, list) and (not g or 8 + sum(10 + sizes_[x] for x in g) > 500)] if ok_shape else []
+        ctx.check(ok_shape and sent == list(range(len(sizes_))) and not over, key, fnm_, f"{label}: {groups!r} - every request once, every solicited reply within 500 bytes",
+                  f"{label}: requested as {groups!r}; " + (f"packet {over[0][0]} solicits a reply of {over[0][1]} bytes on a 500-byte connection (or is empty)" if over else "not every request is sent exactly once"))
     # fragmentation boundary of a single read: estimated reply (element bytes + message) equal to the connection size fits
     fns_ = lx.methods["_read_build_single_request"]
     for label, size_, frag in (("estimated reply exactly the connection size", 480, False), ("estimated reply one byte over", 481, True)):
@@ -1012,8 +1027,8 @@ def d4_12(ctx):
     """Every size in the windows below the connection size (both sizes a connection can have): the multi-request builders are
     folded on one request of that size next to a small one, in both orders.  Whatever they build must fit: a Multiple Service
     request is sequence 2 + service 1 + path size 1 + path 4 + count 2 + per member (offset 2 + its message without the sequence
-    count) bytes; the reply it solicits is sequence 2 + reply header 4 + count 2 + per member (offset 2 + header 4 + type 2 +
-    data) bytes; both <= the connection size.  Every request is sent exactly once - as a member of a packet or by the fragmented
+    count) bytes; the reply it solicits is sequence 2 + reply header 4 + count 2 + per member (offset 2 + header 4 + type 4 - a
+    structure's, the worse case - + data) bytes; both <= the connection size.  Every request is sent exactly once - as a member of a packet or by the fragmented
     service.  The oracle is the wire layout (spec), not the builder's own estimate."""
     lx = _lx(ctx)
     enc = lambda call, env, it: b"<v>" if (call_name(call) or "") == "encode_value" else UNKNOWN  # noqa: E731
@@ -1053,7 +1068,7 @@ def d4_12(ctx):
                     continue
                 gs = groups_of(res)
                 sent = sorted(t for _, g in gs for t in g)
-                over = [(g, 8 + sum(8 + sizes[t] for t in g)) for k, g in gs if k == "Multi" and 8 + sum(8 + sizes.get(t, 0) for t in g) > conn]
+                over = [(g, 8 + sum(10 + sizes[t] for t in g)) for k, g in gs if k == "Multi" and 8 + sum(10 + sizes.get(t, 0) for t in g) > conn]  # (structure replies: 4-byte type)
                 ctx.check(sent == ["edge", "small"] and not over and all(k in ("Multi", "RTF") for k, _ in gs), key, fr, f"{data} data bytes next to a small tag, {conn}-byte connection: {gs!r} fits",
                           f"read of {data} data bytes ({order}) next to a small tag on a {conn}-byte connection is sent as {gs!r}: " + (f"the Multiple Service packet {over[0][0]} solicits a reply of {over[0][1]} bytes, larger than the connection" if over else "not every request is sent exactly once"))
             # writes: message bytes (with the sequence count) of the large request
